@@ -170,9 +170,6 @@ func checkC12(w *World, r *Report) {
 				stepSites = append(stepSites, cg.Sites[f]...)
 			}
 			for _, s := range stepSites {
-				if s.Static != nil && seenStep[s.Static] {
-					continue // a step: its own sites are looked at
-				}
 				writes := false
 				for _, c := range s.Callees {
 					if len(cg.targetsBelow(c, func(x *Site) bool { return isStateEffect(cg.Atom(x)) }, map[*ssa.Function]bool{})) > 0 {
@@ -591,6 +588,8 @@ func checkC12(w *World, r *Report) {
 	r.Rule("C12.exportverbatim", "P4", "closed world: on the export trees no record obtained from a keeper is modified in place before it is exported, except the reviewed blanking of the burn state's account", 2)
 	checkExportVerbatim(w, r, "C12.exportverbatim", flatten(ro.EXPORT))
 	r.Rule("C12.importall", "P5", "every state write on a module's InitGenesis tree is executed unconditionally: at every level of the call chain it lies on every completing path of its function, every iteration of a loop around it passes it and the loop is never left early; only a test for an empty or absent list in front of the loop over that list, and exits that abort the import, may go round it", 8)
+	r.Rule("C12.initorder", "P8", "a chain can start from its own export: every custom module that registers invariants is initialised from genesis before the crisis module asserts them, and after the auth and bank modules its initialisation reads (the application's SetOrderInitGenesis list)", 4)
+	initOrderRule(w, r, "C12.initorder")
 	importAllRule(w, r, "C12.importall")
 	if vg := w.Func("x/cfevesting.ValidateAccountsOnGenesis"); vg != nil {
 		genesisDenomRule(w, r, "C12.importall", vg)
